@@ -291,6 +291,18 @@ def directed_malformed(start_id):
                 edge_s = [(1 << (bps - 1)) - 1, -(1 << (bps - 1))]
                 out.append({"id": k, "channels": 1, "bps": bps, "rate": 44100, "bpscode": "hdr", "selfcheck": False, "class": "pred-overflow",
                             "frames": [{"bs": 8, "subs": [sub]}], "pcm": [[edge_s[i % 2] for i in range(8)]]})
+    # well-formed, self-describing frames under a STREAMINFO that says something else: a decorrelated (2-channel) frame in a stream of
+    # 1 or 3..8 channels, an independent 2-channel frame there, a different depth, a different rate
+    pcm2 = [[(i * 37) % 200 - 100 for i in range(16)], [(i * 11) % 90 - 45 for i in range(16)]]
+    for assign in ("ls", "sr", "ms", "indep"):
+        for sich in (1, 3, 4, 5, 6, 7, 8):
+            k += 1
+            out.append({"id": k, "channels": 2, "bps": 16, "rate": 44100, "bpscode": "hdr", "ratecode": "table", "selfcheck": False, "class": "streaminfo-mismatch",
+                        "si_channels": sich, "frames": [{"bs": 16, "chassign": assign, "subs": [{"type": "verbatim"}, {"type": "verbatim"}]}], "pcm": pcm2})
+    for extra in ({"si_bps": 24}, {"si_bps": 8}, {"si_rate": 48000}, {"si_rate": 0}):
+        k += 1
+        out.append(dict({"id": k, "channels": 2, "bps": 16, "rate": 44100, "bpscode": "hdr", "ratecode": "table", "selfcheck": False, "class": "streaminfo-mismatch",
+                         "frames": [{"bs": 16, "chassign": "indep", "subs": [{"type": "verbatim"}, {"type": "verbatim"}]}], "pcm": pcm2}, **extra))
     lo, hi = -(1 << 32) + 1, (1 << 32) - 1
     edge = [MIN, (1 << 31) - 1]
     for assign in ("ls", "sr", "ms"):
@@ -301,4 +313,30 @@ def directed_malformed(start_id):
             out.append({"id": k, "channels": 2, "bps": 32, "rate": 44100, "bpscode": "hdr", "selfcheck": False, "class": "raw-side-33",
                         "frames": [{"bs": 8, "chassign": assign, "subs": [raw, plain] if assign == "sr" else [plain, raw]}],
                         "pcm": [[edge[i % 2] for i in range(8)], [edge[(i + 1) % 2] for i in range(8)]]})
+    return out
+
+
+def directed_valid(start_id):
+    """valid streams at corners random plans hit too rarely: every pair of rail / near-rail values on the two channels of a stereo frame under
+    each decorrelation (side = +-(2^bps - 1), mid at the rails), coded verbatim, fixed and with escapes"""
+    out = []
+    k = start_id
+    for bps in (4, 8, 16, 24, 30, 31, 32):
+        lo, hi = -(1 << (bps - 1)), (1 << (bps - 1)) - 1
+        vals = [lo, hi, 0, -1, 1, lo + 1, hi - 1]
+        L = [a for a in vals for _b in vals]
+        R = [b for _a in vals for b in vals]
+        bs = len(L)
+        for assign in ("ls", "sr", "ms", "indep"):
+            for ty in ("verbatim", "fixed0"):
+                k += 1
+                if ty == "verbatim" or (bps == 32 and assign != "indep"):
+                    sub = lambda: {"type": "verbatim", "wasted": 0}
+                else:
+                    sub = lambda: {"type": "fixed", "wasted": 0, "order": 0, "method": 1, "po": 0, "params": [["esc", 31]] if bps < 31 else [["rice", 28]]}
+                out.append({"id": k, "channels": 2, "bps": bps, "rate": 44100, "ratecode": "table", "bpscode": "hdr" if bps in TABLE_BPS else "si", "variable": False,
+                            "total_known": True, "md5": "good", "subset": False, "class": None,
+                            "frames": [{"bs": bs, "chassign": assign, "subs": [sub(), sub()], "bscode": "auto", "overlong": 0}], "pcm": [L, R]})
+    for p in out:
+        del p["class"]
     return out
